@@ -71,6 +71,8 @@ def explore(ctx, system, depth, dev, deadline=None, chunk=64):
             break
         # phase A: canonical keys
         keys = _gather(ctx, _phase_a, frontier, chunk, "keys")
+        # worker completion order must not influence which history represents a state
+        keys.sort(key=lambda hk: repr(hk[0]))
         fresh = []
         for hist, key in keys:
             if key in seen:
